@@ -14,7 +14,8 @@ import (
 
 var protectedPointers = []string{"/publicKey", "/service", "/publicKey/0", "/service/0", "/publicKey/-", "/service/-", "/publicKey/0/id",
 	"/publicKey/0/publicKeyJwk/x", "/service/0/serviceEndpoint", "/publicKey/1", "/publicKey/00", "/service/0/type", "", "/",
-	"/publicKeyX", "/service2", "/publi", "/servic", "/Service", "/PublicKey", "/publicKey~0", "/~1publicKey", "/service~1x", "publicKey", "/alsoKnownAs", "/alsoKnownAs/0"}
+	"/publicKeyX", "/service2", "/publi", "/servic", "/Service", "/PublicKey", "/publicKey~0", "/~1publicKey", "/service~1x", "publicKey", "/alsoKnownAs", "/alsoKnownAs/0",
+	"x/publicKey", "#/publicKey/0", "x/service", " /publicKey", "publicKey/publicKey/0", "~/service/0", "x/publicKey/0/id", "#/service/-", "//publicKey", "/./publicKey"}
 
 func genC11Pointer(t *rapid.T, doc interface{}, label string) string {
 	if rapid.IntRange(0, 2).Draw(t, label+"-protected") == 0 {
@@ -118,6 +119,19 @@ func TestC11_IetfCannotTouchKeys(t *testing.T) {
 					}
 				}
 			}
+			if rapid.IntRange(0, 7).Draw(t, "memberCase") == 0 {
+				// member names of the operation object in another case / duplicated in another case
+				from := rapid.SampledFrom([]string{"from", "path", "op"}).Draw(t, "caseMember")
+				to := map[string]string{"from": "From", "path": "Path", "op": "Op"}[from]
+				if v, ok := op[from]; ok {
+					op[to] = v
+					if rapid.Bool().Draw(t, "dropLower") {
+						delete(op, from)
+					} else {
+						op[from] = rapid.SampledFrom([]interface{}{"/name", "/x", "test", "add"}).Draw(t, "lowerValue")
+					}
+				}
+			}
 			if mentionsProtected(op) {
 				mentions = true
 			}
@@ -136,7 +150,8 @@ func TestC11_IetfCannotTouchKeys(t *testing.T) {
 		}
 		labels := []string{modeLabel}
 		for _, o := range ops {
-			labels = append(labels, "op-"+o.(map[string]interface{})["op"].(string))
+			kind, _ := o.(map[string]interface{})["op"].(string)
+			labels = append(labels, "op-"+kind)
 		}
 		if verr := patchvalidator.Validate(lp); verr != nil {
 			labels = append(labels, "refused-by-validator")
